@@ -232,6 +232,9 @@ pub fn run(tier: &str) -> i32 {
             (Network::Regtest, 1, 3, vec![1], few.clone(), 2, vec![0, 1, 2]),
             (Network::Regtest, 2, 4, vec![1], vec![BODY_CB, BODY_SPEND_PARENT, BODY_MULTI], 1, vec![0, 2]),
             (Network::Regtest, 2, 3, vec![1, 3], vec![BODY_CB, BODY_SPEND_PARENT], 1, vec![0]),
+            // the same transaction on two forks at different heights, then spent
+            (Network::Regtest, 4, 5, vec![1], vec![BODY_CB, BODY_SHARED, BODY_SPEND_OLD], 3, vec![0]),
+            (Network::Regtest, 3, 4, vec![1], vec![BODY_CB, BODY_CHAIN, BODY_ZEROS], 2, vec![0]),
         ]
     } else {
         vec![
